@@ -10,9 +10,9 @@ FORMULAS = {
                 p_properties=["P_C04_NoThirdParty", "P_C04_Withdrawable"]),
     "C05": dict(invariants=["C05_IdsFresh", "C05_OnePlace", "C05_NoEmptyBatch", "C05_StatesLegal"],
                 properties=["C05_CountersMonotone", "C05_SettledOnce", "C05_QueuedAsSupplied", "C05_CancelExact",
-                            "C05_LeavesOnlyBySettlement", "C05_FeeIncreaseExact", "C05_CancelBatchRestores", "C05_CallSettlement", "C05_NoRefundAfterObservedExecution"],
+                            "C05_LeavesOnlyBySettlement", "C05_FeeIncreaseExact", "C05_CancelBatchRestores", "C05_CallSettlement", "C05_NoRefundAfterObservedExecution", "C05_TimeoutRefundExact"],
                 p_properties=["P_C05_CountersMonotone", "P_C05_SettledOnce", "P_C05_QueuedAsSupplied", "P_C05_CancelExact",
-                              "P_C05_LeavesOnlyBySettlement", "P_C05_FeeIncreaseExact", "P_C05_CancelBatchRestores", "P_C05_CallSettlement", "P_C05_NoRefundAfterObservedExecution"]),
+                              "P_C05_LeavesOnlyBySettlement", "P_C05_FeeIncreaseExact", "P_C05_CancelBatchRestores", "P_C05_CallSettlement", "P_C05_NoRefundAfterObservedExecution", "P_C05_TimeoutRefundExact"]),
     "C06": dict(invariants=["C06_TimeoutAfterObserved", "C06_NeverBoth"],
                 properties=["C06_TimeoutOnlyWhenProven", "C06_NothingBeforeObservation"],
                 p_properties=["P_C06_TimeoutOnlyWhenProven", "P_C06_NothingBeforeObservation"]),
